@@ -94,7 +94,7 @@ type Worker struct {
 	stop     *int32
 }
 
-const maxDistinctPerWorker = 2 << 20
+const maxDistinctPerWorker = 1 << 20
 
 func (w *Worker) Seen(h uint64) {
 	if len(w.distinct) < maxDistinctPerWorker {
